@@ -119,6 +119,9 @@ func solveAll(obls []*Obligation, workDir string, timeoutS, seed, workers int, s
 		go func() {
 			defer wg.Done()
 			for o := range ch {
+				if o.Syntactic {
+					continue
+				}
 				txt := o.tr.text(o)
 				o.SmtSize = len(txt)
 				if len(txt) > 4<<20 {
